@@ -590,6 +590,15 @@ func genLayoutKind(t *rapid.T, kind string, rank int, label string) Layout {
 		l.Steps = []LStep{genSliceStep(t, rank, false, label)}
 	case "stepsliced":
 		l.Steps = []LStep{genSliceStep(t, rank, true, label)}
+	case "leadsliced":
+		// a slice of the leading axis only: a view whose storage window has no gaps
+		st := LStep{Op: "slice", Lo: make([]int, rank), Hi: make([]int, rank), Step: ones(rank)}
+		st.Lo[0] = rapid.IntRange(0, 2).Draw(t, label+"lo")
+		st.Hi[0] = rapid.IntRange(0, 2).Draw(t, label+"hi")
+		if st.Lo[0]+st.Hi[0] == 0 {
+			st.Lo[0] = 1
+		}
+		l.Steps = []LStep{st}
 	case "slicedT":
 		l.Steps = []LStep{genSliceStep(t, rank, rapid.Bool().Draw(t, label+"st"), label), {Op: "T", Perm: genNonIdPerm(t, rank, label+"perm")}}
 	case "Tsliced":
